@@ -127,6 +127,14 @@ fn check_model(t: &mut Tally, m: &Model) {
                 t.violation(Violation::new("file", case(), bytes_json(&text), bytes_json(&out), "from_bytes(file).as_bytes() differs from the canonical file"));
                 return;
             }
+            // a file whose Id line is the unexpanded "$NetBSD$" may be reported as having that Id or none
+            let parsed = {
+                let mut p = parsed;
+                if m.rcsid.is_none() && p.rcsid.as_deref() == Some(&b"$NetBSD$"[..]) {
+                    p.rcsid = None;
+                }
+                p
+            };
             if &parsed != m {
                 t.violation(Violation::new("file", case(), json!(format!("{:?}", m)), json!(format!("{:?}", parsed)), "parsed fields differ from the file's content"));
                 return;
